@@ -361,14 +361,22 @@ def prove(assumptions, goal, timeout_s=10, opts=None, rounds=2):
                 return Verdict(REFUTED, "ring-normaliser+exact-evaluation", (time.time() - t0) * 1000, model=model,
                                reason="not an identity: the assumptions hold and the goal is false under the exact rational assignment in `model`")
             if (opts or {}).get("ring_only"):
-                return Verdict(UNDECIDED, "ring-normaliser", (time.time() - t0) * 1000, reason="not established by ring identities; no falsifying assignment found by exact evaluation")
+                # short SMT attempt, for a counter-model only (assumptions with equalities defeat random evaluation)
+                base = slice_assumptions(list(assumptions), goal) + [z3.Not(goal)]
+                inst = axioms.saturate(base, rounds=1, opts=opts)
+                res, model, backend, ms = check_formulas(base + inst, (opts or {}).get("refute_timeout", 4), second=False)
+                if res == "sat":
+                    return Verdict(REFUTED, backend, (time.time() - t0) * 1000, model=model, reason="sat (not a ring identity)")
+                if res == "unsat":
+                    return Verdict(PROVED, backend, (time.time() - t0) * 1000)
+                return Verdict(UNDECIDED, "ring-normaliser", (time.time() - t0) * 1000, reason="not established by ring identities; no falsifying assignment found")
     except Exception:  # pragma: no cover  (the normaliser is an accelerator; SMT decides otherwise)
         if (opts or {}).get("ring_only"):
             return Verdict(UNDECIDED, "ring-normaliser", (time.time() - t0) * 1000, reason="ring normaliser failed")
     if not (opts or {}).get("no_slice"):
         assumptions = slice_assumptions(list(assumptions), goal)
     base = [a for a in assumptions] + [z3.Not(goal)]
-    inst = axioms.saturate(base, rounds=rounds, opts=opts)
+    inst = axioms.saturate(base, rounds=(opts or {}).get("rounds", rounds), opts=opts)
     formulas = base + inst
     res, model, backend, ms = check_formulas(formulas, timeout_s)
     if res == "unsat":
